@@ -482,6 +482,9 @@ decodechar(const char *src, uint_least32_t *chr, bool *hexoct, const char *desc,
 	int i;
 	const unsigned char *s = (const unsigned char *)src;
 
+	/* the spelling of a literal made by the # operator has not been checked by the scanner */
+	if (!*s)
+		error(loc, "%s is not terminated", desc);
 	if (*s == '\\') {
 		++s;
 		switch (*s) {
@@ -498,7 +501,8 @@ decodechar(const char *src, uint_least32_t *chr, bool *hexoct, const char *desc,
 		case 'v':  c = '\v'; ++s; break;
 		case 'x':
 			++s;
-			assert(isxdigit(*s));
+			if (!isxdigit(*s))
+				error(loc, "%s contains an invalid hexadecimal escape sequence", desc);
 			c = 0;
 			do c = c * 16 + (*s > '9' ? 10 + tolower(*s) - 'a' : *s - '0');
 			while (isxdigit(*++s));
@@ -506,7 +510,8 @@ decodechar(const char *src, uint_least32_t *chr, bool *hexoct, const char *desc,
 				*hexoct = true;
 			break;
 		default:
-			assert(isodigit(*s));
+			if (!isodigit(*s))
+				error(loc, "%s contains an invalid escape sequence", desc);
 			c = 0;
 			i = 0;
 			do c = c * 8 + (*s++ - '0');
